@@ -1,381 +1,13 @@
 /-
-Lemmas/Ties — the hand-written evaluator model agrees with the descriptions regenerated from
-/repo (Gen/Validators.lean, Gen/Comparators.lean, Gen/OperandOrder.lean) under the reading
-given in Ties/Sem.lean. Everything here mentions `Gen.*`, so it is re-proved against what the
-source says on every run.
+Lemmas/Ties — UMBRELLA only. The proofs that used to live here are split by the generated file they
+depend on, so that one broken tie only breaks the modules (and property checks) that rest on it:
+
+  Lemmas/TiesValidators.lean    Gen/Validators.lean
+  Lemmas/TiesComparators.lean   Gen/Comparators.lean (+ TiesValidators)
+  Lemmas/TiesOrder.lean         Gen/OperandOrder.lean
+
+Nothing should import this module; import the one you need.
 -/
-import JPV.Ties.Sem
-import JPV.Gen.Validators
-import JPV.Gen.Comparators
-import JPV.Gen.OperandOrder
-namespace JPV
-namespace Ties
-open Impl
-
-/-! ### validators -/
-
-/-- the regenerated table of the validator `validateTy ty` models -/
-def genTable : LitTy → ValidatorTable
-  | .num => Gen.Validators.numericTable
-  | .bool => Gen.Validators.boolTable
-  | .str => Gen.Validators.stringTable
-  | .null => Gen.Validators.nilTable
-
-theorem genTable_eq (ty : LitTy) : Gen.Validators.table (vrefOfLitTy ty) = some (genTable ty) := by
-  cases ty <;> rfl
-
-/-- one cell: new cell, contribution to `found`, number of writes -/
-theorem validateTy_cell (ty : LitTy) (c : Cell) :
-    validateTy ty [c] =
-      ((cellStep (genTable ty) c).1, [(cellStep (genTable ty) c).2.1], (cellStep (genTable ty) c).2.2) := by
-  cases ty <;> cases c <;> (try rfl) <;> (rename_i v; cases v <;> rfl)
-
-theorem validateTy_cons (ty : LitTy) (c : Cell) (cs : List Cell) :
-    validateTy ty (c :: cs) =
-      ((cellStep (genTable ty) c).1 || (validateTy ty cs).1,
-       (cellStep (genTable ty) c).2.1 :: (validateTy ty cs).2.1,
-       (validateTy ty cs).2.2 + (cellStep (genTable ty) c).2.2) := by
-  cases ty <;> cases c <;> (try (simp [validateTy, cellStep, cellTy, ValidatorTable.act, lookupAct, applyWrite, Write.count, genTable,
-    Gen.Validators.numericTable, Gen.Validators.boolTable, Gen.Validators.stringTable, Gen.Validators.nilTable]; done)) <;>
-    (rename_i v; cases v <;>
-      simp [validateTy, cellStep, cellTy, ValidatorTable.act, lookupAct, applyWrite, Write.count, genTable,
-        Gen.Validators.numericTable, Gen.Validators.boolTable, Gen.Validators.stringTable, Gen.Validators.nilTable])
-
-theorem validateTy_eq_run (ty : LitTy) (cells : List Cell) :
-    validateTy ty cells = runValidator (genTable ty) cells := by
-  induction cells with
-  | nil => rfl
-  | cons c cs ih => rw [validateTy_cons, ih]; rfl
-
-theorem validateAny_eq_run (cells : List Cell) :
-    validateAny cells = runAny Gen.Validators.anyValueLoop cells := by
-  induction cells with
-  | nil => rfl
-  | cons c cs ih =>
-    have : validateAny (c :: cs) = (!c.isEmpty || validateAny cs) := by simp [validateAny]
-    rw [this, ih]
-    cases c <;> simp [runAny, Gen.Validators.anyValueLoop, CellCond.holds, Cell.isEmpty]
-
-/-! ### comparators -/
-
-/-- the regenerated record of the comparator a `Cmp` stands for -/
-def cmpRec : Cmp → ComparatorRec
-  | .directEq _ => Gen.Comparators.directEQ
-  | .deepEq => Gen.Comparators.deepEQ
-  | .lt => Gen.Comparators.lt
-  | .le => Gen.Comparators.le
-  | .gt => Gen.Comparators.gt
-  | .ge => Gen.Comparators.ge
-  | .regex _ => Gen.Comparators.regex
-
-/-- source of the compiled regular expression a comparator carries -/
-def cmpRe : Cmp → String
-  | .regex re => re
-  | _ => ""
-
-/-- the validator a comparator value uses: the embedded one, or for DirectEQ the one
-    `pushCompareEQ` put into the interface field -/
-def instValidator (c : Cmp) : VRef :=
-  match (cmpRec c).validator, c with
-  | .iface, .directEq ty => vrefOfLitTy ty
-  | v, _ => v
-
-/-- `validate` of a validator struct on a value list with its write log; `none` for an
-    interface field nobody filled in -/
-def runValStep (v : VRef) (lv : VL) (st : St) : Option (Bool × VL × St) :=
-  match v with
-  | .iface => none
-  | .anyValue => some (runAny Gen.Validators.anyValueLoop lv.cells, lv, st)
-  | v =>
-    (Gen.Validators.table v).map fun t =>
-      let r := runValidator t lv.cells
-      (r.1, { lv with cells := r.2.1 }, st.wrote lv.org r.2.2)
-
-theorem cmpValidatorTy_eq (c : Cmp) :
-    (match cmpValidatorTy c with | some ty => vrefOfLitTy ty | none => VRef.anyValue) = instValidator c := by
-  cases c <;> rfl
-
-theorem cmpRec_validator (c : Cmp) :
-    (cmpRec c).validator =
-      (match c with
-       | .directEq _ => VRef.iface | .deepEq => .anyValue | .regex _ => .string | _ => .numeric) := by
-  cases c <;> rfl
-
-theorem valStep_eq (c : Cmp) (lv : VL) (st : St) :
-    runValStep (instValidator c) lv st = some (valStep c lv st) := by
-  cases c with
-  | directEq ty =>
-    cases ty <;>
-      simp [instValidator, cmpRec, Gen.Comparators.directEQ, vrefOfLitTy, runValStep, Gen.Validators.table,
-        valStep, cmpValidatorTy, validateTy_eq_run, genTable]
-  | deepEq =>
-    simp [instValidator, cmpRec, Gen.Comparators.deepEQ, runValStep, valStep, cmpValidatorTy, validateAny_eq_run]
-  | lt => simp [instValidator, cmpRec, Gen.Comparators.lt, runValStep, Gen.Validators.table, valStep, cmpValidatorTy, validateTy_eq_run, genTable]
-  | le => simp [instValidator, cmpRec, Gen.Comparators.le, runValStep, Gen.Validators.table, valStep, cmpValidatorTy, validateTy_eq_run, genTable]
-  | gt => simp [instValidator, cmpRec, Gen.Comparators.gt, runValStep, Gen.Validators.table, valStep, cmpValidatorTy, validateTy_eq_run, genTable]
-  | ge => simp [instValidator, cmpRec, Gen.Comparators.ge, runValStep, Gen.Validators.table, valStep, cmpValidatorTy, validateTy_eq_run, genTable]
-  | regex re => simp [instValidator, cmpRec, Gen.Comparators.regex, runValStep, Gen.Validators.table, valStep, cmpValidatorTy, validateTy_eq_run, genTable]
-
-theorem cmpTest_eq (env : Env) (c : Cmp) (l r : Val) :
-    cmpTest env c l r = evalTest env (cmpRec c).test (cmpRe c) l r := by
-  cases c <;> rfl
-
-/-- the only panic a comparator can raise -/
-def cmpErr : Cmp → Panic
-  | .directEq _ => .uncomparable
-  | _ => .typeAssertion
-
-theorem ifaceEq_err {a b : Val} {e : Panic} (h : ifaceEq a b = .error e) : e = .uncomparable := by
-  cases a <;> cases b <;> simp [ifaceEq] at h <;> first | exact h.symm | skip
-  all_goals (split at h <;> simp at h; try exact h.symm)
-
-theorem asFloat_err {v : Val} {e : Panic} (h : asFloat v = .error e) : e = .typeAssertion := by
-  cases v <;> simp [asFloat] at h <;> exact h.symm
-
-theorem asStr_err {v : Val} {e : Panic} (h : asStr v = .error e) : e = .typeAssertion := by
-  cases v <;> simp [asStr] at h <;> exact h.symm
-
-theorem bind2_err {f : Int → Int → Bool} {l r : Val} {e : Panic}
-    (h : (do let a ← asFloat l; let b ← asFloat r; Except.ok (f a b) : M Bool) = .error e) : e = .typeAssertion := by
-  cases hl : asFloat l with
-  | error e1 => rw [hl] at h; simp [bind, Except.bind] at h; subst h; exact asFloat_err hl
-  | ok a =>
-    cases hr : asFloat r with
-    | error e2 => rw [hl, hr] at h; simp [bind, Except.bind] at h; subst h; exact asFloat_err hr
-    | ok b => rw [hl, hr] at h; simp [bind, Except.bind] at h
-
-theorem cmpTest_err {env : Env} {c : Cmp} {l r : Val} {e : Panic}
-    (h : cmpTest env c l r = .error e) : e = cmpErr c := by
-  cases c with
-  | directEq ty => exact ifaceEq_err h
-  | deepEq => simp [cmpTest] at h
-  | lt => exact bind2_err (f := fun a b => decide (a < b)) h
-  | le => exact bind2_err (f := fun a b => decide (a ≤ b)) h
-  | gt => exact bind2_err (f := fun a b => decide (a > b)) h
-  | ge => exact bind2_err (f := fun a b => decide (a ≥ b)) h
-  | regex re =>
-    cases hl : asStr l with
-    | error e1 => simp [cmpTest, hl, bind, Except.bind] at h; subst h; exact asStr_err hl
-    | ok s => simp [cmpTest, hl, bind, Except.bind] at h
-
-theorem comparator_err {env : Env} {c : Cmp} {r : Val} {cells : List Cell} {e : Panic}
-    (h : comparator env c r cells = .error e) : e = cmpErr c := by
-  induction cells generalizing e with
-  | nil => simp [comparator] at h
-  | cons cell cs ih =>
-    cases ht : comparator env c r cs with
-    | error e1 =>
-      have := ih ht
-      simp [comparator, ht, bind, Except.bind] at h
-      rw [← h]; exact this
-    | ok t =>
-      obtain ⟨f, cs', w⟩ := t
-      cases cell with
-      | empty => cases c <;> simp [comparator, ht, bind, Except.bind] at h
-      | val v =>
-        cases hv : cmpTest env c v r with
-        | error e2 =>
-          simp [comparator, ht, hv, bind, Except.bind] at h
-          rw [← h]; exact cmpTest_err hv
-        | ok b => cases b <;> simp [comparator, ht, hv, bind, Except.bind] at h
-
-theorem cellTest_val (env : Env) (c : Cmp) (v r : Val) :
-    cellTest env (cmpRec c).test (cmpRe c) (.val v) r = cmpTest env c v r := by
-  rw [cmpTest_eq]; rfl
-
-/-- the hand-written comparator loop (which recurses into the tail first) is the forward loop
-    over the regenerated record -/
-theorem comparator_eq_run (env : Env) (c : Cmp) (r : Val) (cells : List Cell) :
-    comparator env c r cells = runCmp env (cmpRec c) (cmpRe c) r cells := by
-  induction cells with
-  | nil => rfl
-  | cons cell cs ih =>
-    cases cell with
-    | empty =>
-      have hrun : runCmp env (cmpRec c) (cmpRe c) r (Cell.empty :: cs) =
-          (if (cmpRec c).skipMarker then do
-              let t ← runCmp env (cmpRec c) (cmpRe c) r cs
-              Except.ok (t.1, Cell.empty :: t.2.1, t.2.2)
-           else do
-              let b ← cellTest env (cmpRec c).test (cmpRe c) Cell.empty r
-              let br := if b then (cmpRec c).thenB else (cmpRec c).elseB
-              let t ← runCmp env (cmpRec c) (cmpRe c) r cs
-              Except.ok (br.setHas || t.1, (if br.blank then Cell.empty else Cell.empty) :: t.2.1,
-                t.2.2 + (if br.blank then 1 else 0))) := by
-        cases hs : (cmpRec c).skipMarker <;> simp [runCmp, hs, Cell.isEmpty]
-      rw [hrun, ← ih]
-      cases ht : comparator env c r cs with
-      | error e1 =>
-        cases c <;>
-          simp [comparator, ht, bind, Except.bind, cmpRec, cellTest,
-            Gen.Comparators.directEQ, Gen.Comparators.deepEQ, Gen.Comparators.lt, Gen.Comparators.le,
-            Gen.Comparators.gt, Gen.Comparators.ge, Gen.Comparators.regex]
-      | ok t =>
-        obtain ⟨f, cs', w⟩ := t
-        cases c <;>
-          simp [comparator, ht, bind, Except.bind, cmpRec, cellTest,
-            Gen.Comparators.directEQ, Gen.Comparators.deepEQ, Gen.Comparators.lt, Gen.Comparators.le,
-            Gen.Comparators.gt, Gen.Comparators.ge, Gen.Comparators.regex]
-    | val v =>
-      have hskip : ((cmpRec c).skipMarker && (Cell.val v).isEmpty) = false := by simp [Cell.isEmpty]
-      have hrun : runCmp env (cmpRec c) (cmpRe c) r (Cell.val v :: cs) =
-          (do
-            let b ← cmpTest env c v r
-            let br := if b then (cmpRec c).thenB else (cmpRec c).elseB
-            let t ← runCmp env (cmpRec c) (cmpRe c) r cs
-            Except.ok (br.setHas || t.1, (if br.blank then Cell.empty else Cell.val v) :: t.2.1,
-              t.2.2 + (if br.blank then 1 else 0))) := by
-        rw [← cellTest_val]; simp [runCmp, hskip]
-      rw [hrun, ← ih]
-      have hbr : (cmpRec c).thenB = ⟨true, false⟩ ∧ (cmpRec c).elseB = ⟨false, true⟩ := by
-        cases c <;> exact ⟨rfl, rfl⟩
-      cases hv : cmpTest env c v r with
-      | error e2 =>
-        cases ht : comparator env c r cs with
-        | error e1 =>
-          have h1 := comparator_err ht
-          have h2 := cmpTest_err hv
-          simp [comparator, ht, bind, Except.bind, h1, h2]
-        | ok t =>
-          obtain ⟨f, cs', w⟩ := t
-          simp [comparator, ht, hv, bind, Except.bind]
-      | ok b =>
-        cases ht : comparator env c r cs with
-        | error e1 => simp [comparator, ht, bind, Except.bind]
-        | ok t =>
-          obtain ⟨f, cs', w⟩ := t
-          cases b <;> simp [comparator, ht, hv, bind, Except.bind, hbr.1, hbr.2]
-
-/-! ### operand ordering -/
-section OperandOrder
-open Gen.OperandOrder Build
-
-/-- split two abstract operands into their 14 × 14 concrete shapes (the `src` fields stay symbolic) -/
-macro "oo_split" a:ident b:ident : tactic =>
-  `(tactic| (rcases $a:ident with ⟨(_|_|_|_|_)|_|_, _|_, sa⟩ <;> rcases $b:ident with ⟨(_|_|_|_|_)|_|_, _|_, sb⟩))
-
-macro "oo_pushes" ha:ident hb:ident : tactic =>
-  `(tactic| first | exact ⟨_, rfl⟩ | (simp [Opnd.known] at $ha:ident; done) | (simp [Opnd.known] at $hb:ident; done))
-
-theorem pushCompareEQ_pushes (n : Nat) (a b : Opnd) (ha : a.known = true) (hb : b.known = true) (stk : Stack) :
-    ∃ t, pushCompareEQ (n + 3) a b stk = .ok (t :: stk) := by
-  oo_split a b <;> oo_pushes ha hb
-theorem pushCompareNE_pushes (n : Nat) (a b : Opnd) (ha : a.known = true) (hb : b.known = true) (stk : Stack) :
-    ∃ t, pushCompareNE (n + 3) a b stk = .ok (t :: stk) := by
-  oo_split a b <;> oo_pushes ha hb
-theorem pushCompareGE_pushes (n : Nat) (a b : Opnd) (stk : Stack) :
-    ∃ t, pushCompareGE (n + 3) a b stk = .ok (t :: stk) := by
-  oo_split a b <;> exact ⟨_, rfl⟩
-theorem pushCompareGT_pushes (n : Nat) (a b : Opnd) (stk : Stack) :
-    ∃ t, pushCompareGT (n + 3) a b stk = .ok (t :: stk) := by
-  oo_split a b <;> exact ⟨_, rfl⟩
-theorem pushCompareLE_pushes (n : Nat) (a b : Opnd) (stk : Stack) :
-    ∃ t, pushCompareLE (n + 3) a b stk = .ok (t :: stk) := by
-  oo_split a b <;> exact ⟨_, rfl⟩
-theorem pushCompareLT_pushes (n : Nat) (a b : Opnd) (stk : Stack) :
-    ∃ t, pushCompareLT (n + 3) a b stk = .ok (t :: stk) := by
-  oo_split a b <;> exact ⟨_, rfl⟩
-
-/-- no operand pair — not even one with a literal of an unforeseen type — makes the procedures
-    call each other more than twice -/
-theorem pushCompareEQ_no_loop (n : Nat) (a b : Opnd) (stk : Stack) :
-    isOutOfFuel (pushCompareEQ (n + 3) a b stk) = false := by
-  oo_split a b <;> first | rfl | (cases stk <;> rfl)
-theorem pushCompareNE_no_loop (n : Nat) (a b : Opnd) (stk : Stack) :
-    isOutOfFuel (pushCompareNE (n + 3) a b stk) = false := by
-  oo_split a b <;> first | rfl | (cases stk <;> rfl)
-theorem pushCompareGE_no_loop (n : Nat) (a b : Opnd) (stk : Stack) :
-    isOutOfFuel (pushCompareGE (n + 3) a b stk) = false := by
-  oo_split a b <;> first | rfl | (cases stk <;> rfl)
-theorem pushCompareGT_no_loop (n : Nat) (a b : Opnd) (stk : Stack) :
-    isOutOfFuel (pushCompareGT (n + 3) a b stk) = false := by
-  oo_split a b <;> first | rfl | (cases stk <;> rfl)
-theorem pushCompareLE_no_loop (n : Nat) (a b : Opnd) (stk : Stack) :
-    isOutOfFuel (pushCompareLE (n + 3) a b stk) = false := by
-  oo_split a b <;> first | rfl | (cases stk <;> rfl)
-theorem pushCompareLT_no_loop (n : Nat) (a b : Opnd) (stk : Stack) :
-    isOutOfFuel (pushCompareLT (n + 3) a b stk) = false := by
-  oo_split a b <;> first | rfl | (cases stk <;> rfl)
-
-/-- the list of procedures the generator found is the six expected ones -/
-theorem procedures_names :
-    procedures.map (·.1) =
-      ["pushCompareEQ", "pushCompareNE", "pushCompareGE", "pushCompareGT", "pushCompareLE", "pushCompareLT"] := by
-  decide
-
-/-- the same fact as a computation, so that a failure can be inspected with
-    `#eval looping Gen.OperandOrder.procedures 3` -/
-theorem looping_none : looping procedures 3 = [] := by decide
-
-macro "oo_close" hl:ident hr:ident : tactic =>
-  `(tactic| first | (simp [litParsed] at $hl:ident; done) | (simp [litParsed] at $hr:ident; done) | exact ⟨_, rfl, rfl⟩)
-
-theorem pushCompareEQ_agrees (n : Nat) (l r : P) (hl : litParsed l = true) (hr : litParsed r = true) (stk : Stack) :
-    ∃ t, pushCompareEQ (n + 3) (opndOfP .fst l) (opndOfP .snd r) stk = .ok (t :: stk) ∧
-      qOfTag? l r t = some (mkEq l r) := by
-  cases l with
-  | lit v =>
-    cases r with
-    | lit w => cases v <;> cases w <;> oo_close hl hr
-    | proot ch => cases v <;> oo_close hl hr
-    | pcur ch => cases v <;> oo_close hl hr
-  | proot ch =>
-    cases r with
-    | lit w => cases w <;> oo_close hl hr
-    | proot ch => oo_close hl hr
-    | pcur ch => oo_close hl hr
-  | pcur ch =>
-    cases r with
-    | lit w => cases w <;> oo_close hl hr
-    | proot ch => oo_close hl hr
-    | pcur ch => oo_close hl hr
-
-theorem pushCompareNE_agrees (n : Nat) (l r : P) (hl : litParsed l = true) (hr : litParsed r = true) (stk : Stack) :
-    ∃ t, pushCompareNE (n + 3) (opndOfP .fst l) (opndOfP .snd r) stk = .ok (t :: stk) ∧
-      qOfTag? l r t = some (.not (mkEq l r)) := by
-  cases l with
-  | lit v =>
-    cases r with
-    | lit w => cases v <;> cases w <;> oo_close hl hr
-    | proot ch => cases v <;> oo_close hl hr
-    | pcur ch => cases v <;> oo_close hl hr
-  | proot ch =>
-    cases r with
-    | lit w => cases w <;> oo_close hl hr
-    | proot ch => oo_close hl hr
-    | pcur ch => oo_close hl hr
-  | pcur ch =>
-    cases r with
-    | lit w => cases w <;> oo_close hl hr
-    | proot ch => oo_close hl hr
-    | pcur ch => oo_close hl hr
-
-theorem pushCompareLT_agrees (n : Nat) (l r : P) (stk : Stack) :
-    ∃ t, pushCompareLT (n + 3) (opndOfP .fst l) (opndOfP .snd r) stk = .ok (t :: stk) ∧
-      qOfTag? l r t = some (mkOrd .lt l r) := by
-  cases l <;> cases r <;> exact ⟨_, rfl, rfl⟩
-theorem pushCompareLE_agrees (n : Nat) (l r : P) (stk : Stack) :
-    ∃ t, pushCompareLE (n + 3) (opndOfP .fst l) (opndOfP .snd r) stk = .ok (t :: stk) ∧
-      qOfTag? l r t = some (mkOrd .le l r) := by
-  cases l <;> cases r <;> exact ⟨_, rfl, rfl⟩
-theorem pushCompareGT_agrees (n : Nat) (l r : P) (stk : Stack) :
-    ∃ t, pushCompareGT (n + 3) (opndOfP .fst l) (opndOfP .snd r) stk = .ok (t :: stk) ∧
-      qOfTag? l r t = some (mkOrd .gt l r) := by
-  cases l <;> cases r <;> exact ⟨_, rfl, rfl⟩
-theorem pushCompareGE_agrees (n : Nat) (l r : P) (stk : Stack) :
-    ∃ t, pushCompareGE (n + 3) (opndOfP .fst l) (opndOfP .snd r) stk = .ok (t :: stk) ∧
-      qOfTag? l r t = some (mkOrd .ge l r) := by
-  cases l <;> cases r <;> exact ⟨_, rfl, rfl⟩
-
-/-- what `pushCompareEQ` does with a literal of a type it has no `case` for (its type switch has
-    no `default`): nothing is pushed. Not reachable from the grammar — recorded, not relied upon. -/
-theorem pushCompareEQ_other (n : Nat) (a : Opnd) (il : Bool) (s : Side) (stk : Stack) :
-    pushCompareEQ (n + 3) a ⟨.literal .other, il, s⟩ stk = .ok stk ∨
-    ∃ t, pushCompareEQ (n + 3) a ⟨.literal .other, il, s⟩ stk = .ok (t :: stk) := by
-  rcases a with ⟨(_|_|_|_|_)|_|_, _|_, sa⟩ <;> cases il <;>
-    first | exact .inl rfl | exact .inr ⟨_, rfl⟩
-
-end OperandOrder
-
-end Ties
-end JPV
+import JPV.Lemmas.TiesValidators
+import JPV.Lemmas.TiesComparators
+import JPV.Lemmas.TiesOrder
